@@ -116,7 +116,7 @@ TABLE = [
     ('R4', 'hash.finalize().into() -> hash.finalize32()', re.compile(r'\.finalize\(\)\.into\(\)'), '.finalize32()'),
     ('R11', 'ids.contains(X) -> vvec_contains(ids, X)', re.compile(r'\b(ids|id_failsafe_done)\.contains\('), r'vvec_contains(&\1, '),
     ('R11', 'S.to_string() on a &str -> vstr_to_string(S)', re.compile(r'\b(filename)\.to_string\(\)'), r'vstr_to_string(\1)'),
-    ('R11', 'S.len() on a &str -> vstr_len(S)', re.compile(r'\b(filename)\.len\(\)'), r'vstr_len(\1)'),
+    ('R11', 'S.len() on a &str -> vstr_len(S)', re.compile(r'\b(filename|file_name|fname)\.len\(\)'), r'vstr_len(\1)'),
     ('R8', 'X.by_ref().take(N).read(B) -> vio_read_take(X, N, B)', re.compile(r'\b(self\.src)\.by_ref\(\)\.take\(([^;]*?)\)\.read\((\w+)\)'), r'vio_read_take(\1, \2, \3)'),
     ('R4', 'Cursor::new -> VCursor::new', re.compile(r'(?<![A-Za-z_:])Cursor::new\('), 'VCursor::new('),
     ('R8', '(&mut X).take(N).read_to_end(&mut V) -> vio_read_to_end_take',
